@@ -262,9 +262,39 @@ def mk(o, untouched=False):
     return w, sv
 
 
+_conn = {}
+
+
+def session(o, untouched=False):
+    '''(w, sv, bot, ds) for a load / update.  An operation flagged `same_conn`
+    that addresses the same run, target, task, algorithm and state vector
+    (names and versions) as the previous load / update re-uses that
+    operation's connection object -- one worker doing load(), run(),
+    update() on one dawgie.db.connect() -- with the objects of its state vector
+    replaced by this operation's (base values before run(), current values
+    after).  Anything else gets a fresh connection.'''
+    key = (o['run'], o['tn'], o['task'], o['alg'], tuple(o['aver']), o['sv'],
+           tuple(o['sver']))
+    w, sv = mk(o, untouched=untouched)
+    if o.get('same_conn') and _conn.get('key') == key:
+        w0, sv0, bot0, ds0 = _conn['val']
+        for k in list(sv0):
+            del sv0[k]
+        for k in sv:
+            sv0[k] = sv[k]
+        return w0, sv0, bot0, ds0
+    bot = Bot(o['task'], 0, o['run'], o['tn'])
+    ds = dawgie.db.connect(w, bot, o['tn'])
+    _conn['key'] = key
+    _conn['val'] = (w, sv, bot, ds)
+    return w, sv, bot, ds
+
+
 def do_op(o):
     '''returns the reply (JSON-able); raises nothing'''
     kind = o['op']
+    if kind not in ('upd', 'load'):
+        _conn.clear()
     try:
         if kind == 'add':
             return {'r': bool(dawgie.db.shelve.add(o['tn']))}
@@ -274,9 +304,8 @@ def do_op(o):
                                     sv[o['vn']])
             return {'r': None}
         if kind == 'upd':
-            w, sv = mk(o)
-            bot = Bot(o['task'], 0, o['run'], o['tn'])
-            ds = dawgie.db.connect(w, bot, o['tn'])
+            w, sv, bot, ds = session(o)
+            n_before = len(bot.new_values())
             Steps.arm(o.get('crash'))
             try:
                 ds._update()
@@ -285,12 +314,10 @@ def do_op(o):
                 crashed = True
             finally:
                 Steps.crash_at = None
-            return {'r': [[n, bool(f)] for n, f in bot.new_values()],
+            return {'r': [[n, bool(f)] for n, f in bot.new_values()[n_before:]],
                     'crashed': crashed, 'steps': list(Steps.trace)}
         if kind == 'load':
-            w, sv = mk(o, untouched=True)
-            bot = Bot(o['task'], 0, o['run'], o['tn'])
-            ds = dawgie.db.connect(w, bot, o['tn'])
+            w, sv, bot, ds = session(o, untouched=True)
             ds._load()
             got = []
             for k in sv:
